@@ -16,7 +16,7 @@ import ast
 from fractions import Fraction
 
 from ..astutil import calls, const, kw, parent_map, short
-from ..kai import interpret, cond_repr
+from ..kai import cmp_cond, cond_repr, flatten_and, interpret
 from ..kutil import CannotEvaluate, eval_cond_full, evaluate, guard_atoms, returned_arrays, show
 from ..program import AnalysisIncomplete, Func, norm
 from ..sym import App, Rat, Sym, subst, walk_atoms
@@ -26,6 +26,7 @@ NEUMANN = {(0, -1), (-1, 0), (1, 0), (0, 1)}
 WIDE_OK = ('np.float64', 'np.int64', 'np.uint64', 'float', 'numpy.float64', 'numpy.int64', "'f8'", "'i8'")
 OWN = Fraction(999983)       # stands for the value of the centre cell (whatever it is)
 NONE = App('none', [])
+from ..kutil import NONE_VALUE as NONE_NUM      # noqa: E402
 
 
 def F(x):
@@ -246,7 +247,7 @@ def _classify(c, atoms, Ly, Lx, allow_phi_of=()):
     """sort the atoms a pass's decisions depend on into roles; unknown ones are returned under 'other'"""
     ysym, xsym = Sym(Ly.var), Sym(Lx.var)
     centre = App('read', [c.data, Rat.atom(ysym), Rat.atom(xsym)])
-    roles = {'nan': [], 'count': [], 'label': [], 'is': [], 'own': [], 'phi': [], 'loopout': [], 'other': [], 'outcell': []}
+    roles = {'nan': [], 'count': [], 'label': [], 'is': [], 'own': [], 'phi': [], 'loopout': [], 'other': [], 'outcell': [], 'value': []}
     phis = set()
     for L in allow_phi_of:
         for v in getattr(L, 'phi', {}).values():
@@ -263,8 +264,16 @@ def _classify(c, atoms, Ly, Lx, allow_phi_of=()):
             roles['own'].append(a)
         elif isinstance(a, App) and a.name == 'isnan' and a.args[0] == Rat.atom(centre):
             roles['nan'].append(a)
-        elif isinstance(a, App) and a.name == 'count':
-            roles['count'].append(a)
+        elif isinstance(a, App) and (a.name == 'count' or a.name.startswith('reduce:any') or a.name.startswith('reduce:sum')):
+            roles['count'].append(a)        # number of matches / "some neighbour matches"
+        elif isinstance(a, App) and a.name in ('bool', 'method:any', 'reduce:any') and \
+                any(isinstance(x, App) and x.name == 'arr' and x.args and x.args[0] in c.valuewin for x in walk_atoms(a)):
+            roles['count'].append(a)        # `mask.any()`: some neighbour matches
+        elif isinstance(a, App) and a.name == 'cell?' and a.args[0] in c.valuewin:
+            roles.setdefault('value', []).append(a)     # the value window read at the visited slot (mask form of the visit)
+        elif isinstance(a, App) and a.name == 'cell?' and a.args[0] in c.labelwin and isinstance(a.args[1], Rat) and \
+                len(a.args[1].atoms()) == 1 and isinstance(next(iter(a.args[1].atoms())), Sym) and '@' in next(iter(a.args[1].atoms())).name:
+            roles['label'].append(a)        # label window read at the slot of a loop over all slots
         elif isinstance(a, App) and a.name == 'cell?' and a.args[0] in c.labelwin and isinstance(a.args[1], Rat) and \
                 len(a.args[1].atoms()) == 1 and getattr(next(iter(a.args[1].atoms())), 'name', '') == 'match':
             roles['label'].append(a)
@@ -286,12 +295,84 @@ def _classify(c, atoms, Ly, Lx, allow_phi_of=()):
     return roles
 
 
-def _match_ok(c, label_atom, L):
-    """the label is read at slot match(P, j) with j the variable of loop L, L running over all count(P) matches"""
+def _match_ok(c, label_atom, L, conds=()):
+    """How the neighbour loop L visits the window slots, and the matching predicate P (over whole window arrays).
+    match form: the label is read at slot match(P, j), L running over all count(P) matches.
+    mask form: the label is read at slot j, L running over ALL slots, the uses guarded by P at j (`conds`: the conditions
+    on the paths of the loop; those that read the value window at j make up P(j))."""
     idx = next(iter(label_atom.args[1].atoms()))
-    P, j = idx.args
-    return label_atom.args[1] == Rat.atom(idx) and j == Rat.sym(L.var) and L.kind == 'range' and L.lo == Rat.const(0) and \
-        L.hi == Rat.atom(App('count', [P])) and L.step == Rat.const(1), P
+    if isinstance(idx, App) and idx.name == 'match':
+        P, j = idx.args
+        return label_atom.args[1] == Rat.atom(idx) and j == Rat.sym(L.var) and L.kind == 'range' and L.lo == Rat.const(0) and \
+            L.hi == Rat.atom(App('count', [P])) and L.step == Rat.const(1), P
+    # mask form
+    j = Rat.sym(L.var)
+    full = L.kind == 'range' and L.lo == Rat.const(0) and L.step == Rat.const(1) and label_atom.args[1] == j and \
+        (L.hi == Rat.sym(c.nparam) or any(L.hi == Rat.atom(App('shape', [w, 0])) for w in list(c.valuewin) + list(c.labelwin) if w))
+    parts = []
+    for g in conds:
+        for x in (flatten_and([g]) if g[0] == 'and' else [g]):
+            ats = guard_atoms([x])
+            if any(isinstance(a, App) and a.name == 'cell?' and a.args[0] in c.valuewin for a in ats) and x not in parts:
+                parts.append(x)
+    if not parts:
+        return False, ('const', True)
+
+    def deindex(a):
+        if isinstance(a, App) and a.name == 'cell?' and a.args[0] in c.valuewin and a.args[1] == j:
+            return Rat.atom(App('arr', [a.args[0]]))
+        return None
+
+    def dx(cnd):
+        if cnd[0] == 'cmp':
+            return cmp_cond(cnd[1], subst(cnd[3] if len(cnd) > 3 else cnd[2], deindex), Rat.const(0))
+        if cnd[0] in ('and', 'or'):
+            return (cnd[0],) + tuple(dx(y) for y in cnd[1:])
+        if cnd[0] == 'not':
+            return ('not', dx(cnd[1]))
+        if cnd[0] == 'truth' and isinstance(cnd[1], Rat):
+            return ('truth', subst(cnd[1], deindex))
+        return cnd
+    # orientation: a condition met on the path that skips the slot is the negation of the matching predicate
+    oriented = []
+    for x in parts:
+        px = dx(x)
+        env = {}
+        for a in guard_atoms([px]):
+            if isinstance(a, App) and a.name == 'arr':
+                env[a] = F(5)
+            elif isinstance(a, App) and a.name in ('read', 'cell?') and a.args[0] == c.data:
+                env[a] = F(5)
+            elif isinstance(a, Sym) and a.name in c.f.params + c.f.kwonly:
+                env[a] = F(1)
+        try:
+            if not eval_cond_full(px, env):
+                px = ('not', px)
+        except CannotEvaluate:
+            pass
+        if px not in oriented:
+            oriented.append(px)
+    P = oriented[0] if len(oriented) == 1 else ('and',) + tuple(oriented)
+    return bool(full), P
+
+
+def _slot_envs(c, roles, flags=()):
+    """environments in which the visited slot matches / does not match the cell (mask form: the value window is read at
+    the slot; match form: only matches are visited, so there is nothing to bind and no non-matching visit)"""
+    vals = roles.get('value', [])
+    if not vals:
+        return [('', True, {})]
+    out = []
+    for fl in (1, 0):
+        for match in (True, False):
+            env = {a: (OWN if match else OWN * 3 + 11) for a in vals}
+            for x in roles['own']:
+                env[x] = OWN
+            for p in c.f.params + c.f.kwonly:
+                if p not in (c.data, c.nparam):
+                    env[Sym(p)] = F(fl)
+            out.append(('%s, %s slot' % ('exact path' if fl else 'tolerance path', 'matching' if match else 'non-matching'), match, env))
+    return out
 
 
 def check_pass1(c):
@@ -328,7 +409,7 @@ def check_pass1(c):
     atoms |= walk_atoms(upost)
     roles = _classify(c, atoms, Ly, Lx, (Lx,))
     extra = [a for a in roles['phi'] if a != uatom] + roles['other'] + roles['label'] + roles['outcell']
-    if extra or len(roles['loopout']) > 1 or len(roles['nan']) > 1 or len(roles['count']) > 1:
+    if extra or len(roles['loopout']) > 1 or len(roles['nan']) > 1 or len([a for a in roles['count'] if a.name == 'count']) > 1:
         rep.add('R2', f, entry, 'pass 1 decision structure', line, None,
                 'depends on quantities the rule does not model: %s' % show(extra or roles['loopout'] or roles['count'], 200))
         return
@@ -422,14 +503,32 @@ def check_search(c, L, name):
                 'the search must look at the labels of the matching neighbours (found %d label reads)' % len(labels))
         return
     A = labels[0]
-    okm, P = _match_ok(c, A, L)
+    allconds = [g_ for g, v in paths for g_ in g]
+    pa = next(iter(post.atoms())) if isinstance(post, Rat) and len(post.atoms()) == 1 else None
+
+    def ite_conds(r, out):
+        for a in walk_atoms(r):
+            if isinstance(a, App) and a.name == 'ite':
+                out.append(a.args[0])
+        return out
+    if not any(isinstance(a, App) and a.name == 'cell?' and a.args[0] in c.valuewin for g_ in allconds for a in guard_atoms([g_])):
+        allconds += ite_conds(post, []) if isinstance(post, Rat) else []      # no break path: the test lives in the update
+    okm, P = _match_ok(c, A, L, allconds)
     rep.add('R2', f, entry, 'labels looked up at the slots of ALL matching neighbours', line, okm,
-            'the label window must be read at match slot j for j over every match')
+            'the label window must be read at the slot of every matching neighbour (match positions, or every slot under the '
+            'matching test)')
     c.predicates = getattr(c, 'predicates', []) + [(P, L.node.lineno)]
     isn = [a for a in atoms if isinstance(a, App) and a.name == 'is' and a.args[0] == phi]
-    for title, prior, lab in (('unlabelled neighbour, nothing found yet', None, 0), ('unlabelled neighbour, label 7 found before', 7, 0),
-                              ('neighbour labelled 3, nothing found yet', None, 3), ('neighbour labelled 3, label 7 found before', 7, 3)):
+    Ly1, Lx1 = c.passes[0]
+    sroles = _classify(c, atoms, Ly1, Lx1, (L, Lx1))
+    cases = []
+    for stitle, smatch, senv in _slot_envs(c, sroles):
+        for title, prior, lab in (('unlabelled neighbour, nothing found yet', None, 0), ('unlabelled neighbour, label 7 found before', 7, 0),
+                                  ('neighbour labelled 3, nothing found yet', None, 3), ('neighbour labelled 3, label 7 found before', 7, 3)):
+            cases.append(((stitle + ': ' if stitle else '') + title, prior, lab, smatch, senv))
+    for title, prior, lab, smatch, senv in cases:
         env = {A: F(lab)}
+        env.update(senv)
         for a in isn:
             env[a] = F(1 if prior is None else 0)
         if prior is not None:
@@ -450,7 +549,10 @@ def check_search(c, L, name):
         except CannotEvaluate as e:
             rep.add('R2', f, entry, 'search step, ' + title, line, None, 'not evaluable: %s' % e)
             continue
-        if lab == 0:
+        if not smatch:
+            ok = not left and res == prior
+            why = 'a neighbour that does not match the cell takes no part: its label must be ignored'
+        elif lab == 0:
             ok = not left and res == prior
             why = 'an unlabelled (0) neighbour must be passed over: stopping or taking its 0 leaves the cell unlabelled / ' \
                   'misses labelled neighbours further on'
@@ -512,7 +614,8 @@ def check_pass2(c):
                 'depends on quantities the rule does not model: %s / label reads %d' % (show(extra, 200), len(roles['label'])))
         return
     A = roles['label'][0]
-    okm, P = _match_ok(c, A, L)
+    allconds = [g_ for s in repl for g_ in s.guards[Lx.gdepth:]]
+    okm, P = _match_ok(c, A, L, allconds)
     rep.add('R3', f, entry, 'labels looked up at the slots of ALL matching neighbours', L.node.lineno, okm,
             'the label window must be read at match slot j for j over every match (all of them take part in the merge)')
     c.predicates = getattr(c, 'predicates', []) + [(P, L.node.lineno)]
@@ -549,8 +652,16 @@ def check_pass2(c):
              ('same label (4, 4)', 4, 4, None, 4),
              ('running label larger (5 > 3)', 5, 3, (5, 3), 3),
              ('running label smaller (3 < 5)', 3, 5, (5, 3), 3)]
-    for title, m, a, want, wantm in table:
+    cases = []
+    for stitle, smatch, senv in _slot_envs(c, roles):
+        for title, m, a, want, wantm in table:
+            if smatch:
+                cases.append(((stitle + ': ' if stitle else '') + title, m, a, want, wantm, senv))
+            else:
+                cases.append((stitle + ': ' + title, m, a, None, m, senv))      # a non-matching slot changes nothing
+    for title, m, a, want, wantm, senv in cases:
         env = {A: F(a)}
+        env.update(senv)
         for x in roles['nan']:
             env[x] = F(0)
         for x in roles['count']:
@@ -562,6 +673,8 @@ def check_pass2(c):
                 env[x] = F(1 if m is None else 0)
         if m is not None:
             env[M] = F(m)
+        else:
+            env[M] = NONE_NUM
         try:
             acts = [r for r in (sweep(s, env) for s in repl) if r is not None and r[0] != r[1]]
             newm = evaluate(post, env)
@@ -573,7 +686,9 @@ def check_pass2(c):
             rep.add('R3', f, entry, 'merge step, ' + title, L.node.lineno, None, 'not evaluable: %s' % e)
             continue
         # which of the two labels survives is immaterial for the partition; the running label must be the survivor
-        if want is None:
+        if want is None and wantm is None:
+            ok = acts == [] and (newm is None or newm == NONE_NUM)
+        elif want is None:
             ok = acts == [] and newm == wantm
         else:
             ok = len(acts) == 1 and set(acts[0]) == set(want) and newm == acts[0][1]
